@@ -64,6 +64,11 @@ pub fn vec_leaves(db: &Db, ty: &str) -> Vec<(String, String, Vec<Ix>)> {
     for (p, k) in &ti.parts {
         match k {
             PartKind::Sc => out.push((p.clone(), p.clone(), vec![])),
+            PartKind::Inner(i) => {
+                for (leaf, ipath, idx) in vec_leaves(db, i) {
+                    out.push((format!("{p}_{leaf}"), format!("{p}.{ipath}"), idx));
+                }
+            }
             PartKind::Deriv(r, c) if r == "U1" || c == "U1" => {
                 seen_vec += 1;
                 if nvec == 1 && nmat >= 1 {
@@ -85,6 +90,34 @@ pub fn vec_leaves(db: &Db, ty: &str) -> Vec<(String, String, Vec<Ix>)> {
 pub fn vec_outs(db: &Db, ty: &str) -> Vec<(String, String, Vec<Ix>)> {
     let mut seen = std::collections::HashSet::new();
     vec_leaves(db, ty).into_iter().filter(|(_, p, _)| seen.insert(p.clone())).collect()
+}
+
+/// field access along a dotted path
+pub fn get_path(v: &Val, path: &str) -> Option<Val> {
+    let mut cur = strip_ref(v.clone());
+    for seg in path.split('.') {
+        match cur {
+            Val::Struct(_, fs) => {
+                cur = strip_ref(fs.into_iter().find(|(n, _)| n == seg)?.1);
+            }
+            _ => return None,
+        }
+    }
+    Some(cur)
+}
+
+/// build a (possibly nested) struct value of type `ty` from a map dotted-path -> value
+pub fn assemble(db: &Db, ty: &str, prefix: &str, map: &HashMap<String, Val>) -> R<Val> {
+    let ti = db.types.get(ty).ok_or("unknown type")?;
+    let mut fs = vec![];
+    for (p, k) in &ti.parts {
+        let path = if prefix.is_empty() { p.clone() } else { format!("{prefix}.{p}") };
+        match k {
+            PartKind::Inner(i) => fs.push((p.clone(), assemble(db, i, &path, map)?)),
+            _ => fs.push((p.clone(), map.get(&path).cloned().ok_or(format!("missing part {path}"))?)),
+        }
+    }
+    Ok(Val::Struct(ty.to_string(), fs))
 }
 
 pub fn is_vec_type(db: &Db, ty: &str) -> bool {
@@ -157,6 +190,14 @@ pub fn classify_type(db: &Db, t: &Type, cur: &str) -> R<(Kind, bool, bool)> {
             let last = segs.last().unwrap().as_str();
             if segs.len() == 2 && segs[0] == "Self" && (last == "Output" || last == "RealField") {
                 return Ok((Kind::Struct(cur.to_string()), false, false));
+            }
+            if let Some((outer, inner)) = db.nested.get(cur) {
+                if last == "T" {
+                    return Ok((Kind::Struct(inner.clone()), false, false));
+                }
+                if last == outer {
+                    return Ok((Kind::Struct(cur.to_string()), false, false));
+                }
             }
             match last {
                 "f64" => Ok((Kind::Sc, false, false)),
@@ -257,6 +298,7 @@ fn val_of_kind(db: &Db, root: &str, k: &Kind) -> R<Val> {
             for (p, pk) in &ti.parts {
                 match pk {
                     PartKind::Sc => fs.push((p.clone(), Val::Real(format!("{root}_{p}")))),
+                    PartKind::Inner(i) => fs.push((p.clone(), val_of_kind(db, &format!("{root}_{p}"), &Kind::Struct(i.clone()))?)),
                     PartKind::Deriv(..) => fs.push((p.clone(), Val::Deriv(mk(MatE::Leaf(format!("{root}_{p}")))))),
                 }
             }
@@ -428,6 +470,14 @@ impl<'a> Ev<'a> {
         if first == "Self" {
             return Some(self.cur.clone());
         }
+        if let Some((outer, inner)) = self.db.nested.get(&self.cur) {
+            if first == outer {
+                return Some(self.cur.clone());
+            }
+            if first == "T" {
+                return Some(inner.clone());
+            }
+        }
         if self.db.types.contains_key(first) {
             return Some(first.clone());
         }
@@ -517,8 +567,9 @@ impl<'a> Ev<'a> {
             (Val::Unit, Kind::Unit) => {}
             (Val::Struct(t, fs), Kind::Struct(t2)) if t == t2 => {
                 let ty = t.clone();
+                let whole = Val::Struct(t.clone(), fs.clone());
                 for (_, part, idx) in vec_leaves(self.db, &ty) {
-                    let fv = fs.iter().find(|(n, _)| *n == part).map(|(_, v)| v.clone()).ok_or("missing part")?;
+                    let fv = get_path(&whole, &part).ok_or("missing part")?;
                     match strip_ref(fv) {
                         Val::Real(s) => out.push(s),
                         Val::Deriv(m) => {
@@ -569,15 +620,15 @@ impl<'a> Ev<'a> {
             Kind::Bool => Val::Bool(scalar_call(self, key(if prefix.is_empty() { "ret" } else { "" }), "bool")?),
             Kind::Unit => Val::Unit,
             Kind::Struct(t) => {
-                let mut fs = vec![];
+                let mut map: HashMap<String, Val> = HashMap::new();
                 for (out, part, idx) in vec_outs(self.db, t) {
                     if idx.is_empty() {
-                        fs.push((part.clone(), Val::Real(scalar_call(self, key(&out), "real")?)));
+                        map.insert(part.clone(), Val::Real(scalar_call(self, key(&out), "real")?));
                     } else {
-                        fs.push((part.clone(), Val::Deriv(mk(MatE::Call { mname: mname.to_string(), part: key(&out), natural: idx.clone(), args: args.to_vec() }))));
+                        map.insert(part.clone(), Val::Deriv(mk(MatE::Call { mname: mname.to_string(), part: key(&out), natural: idx.clone(), args: args.to_vec() })));
                     }
                 }
-                Val::Struct(t.clone(), fs)
+                assemble(self.db, t, "", &map)?
             }
             Kind::Tuple(ks) => {
                 let mut vs = vec![];
@@ -1133,7 +1184,8 @@ impl<'a> Ev<'a> {
             });
         }
         // scalar statics
-        if head.len() == 1 && (head[0] == "T" || head[0] == "F") {
+        let nested_t = head.len() == 1 && head[0] == "T" && self.db.nested.contains_key(&self.cur);
+        if head.len() == 1 && (head[0] == "T" || head[0] == "F") && !nested_t {
             let args = self.eval_args(&c.args)?;
             return match (name.as_str(), args.len()) {
                 ("one", 0) => Ok(Val::Real("1real".into())),
@@ -1273,8 +1325,9 @@ fn outs_of(ev: &mut Ev, v: &Val, k: &Kind, prefix: &str, out: &mut Vec<(String, 
         (Val::Bool(s), Kind::Bool) => out.push((key(if prefix.is_empty() { "ret" } else { "" }), s, "bool")),
         (Val::Unit, Kind::Unit) => {}
         (Val::Struct(t, fs), Kind::Struct(t2)) if &t == t2 => {
+            let whole = Val::Struct(t.clone(), fs.clone());
             for (oname, part, idx) in vec_outs(ev.db, &t) {
-                let fv = fs.iter().find(|(n, _)| *n == part).map(|(_, v)| v.clone()).ok_or("missing part in result")?;
+                let fv = get_path(&whole, &part).ok_or("missing part in result")?;
                 match strip_ref(fv) {
                     Val::Real(s) => out.push((key(&oname), s, "real")),
                     Val::Deriv(m) => {
